@@ -219,11 +219,7 @@ def check_smiles(smi, r, tag=None):
         x = _SF.encoder(smi, strict=False)
         got = "accept"
     except _SF.EncoderError as e:
-        got = "reject"
-        msg = str(e)
-        if "kekul" not in msg:
-            r.cov["encoder rejects for a non-kekulization reason"] += 1
-            return None
+        got = "reject"      # input is valid for the independent reader and strict=False: only kekulization can fail
     except Exception as e:
         r.cov["encoder escapes with %s (C09's business)" % type(e).__name__] += 1
         return None
